@@ -1,3 +1,155 @@
-From Iodine Require Import DnsMsg.
-Theorem C09_placeholder : True. Proof. exact I. Qed.
-Print Assumptions C09_placeholder.
+(* Properties_C09.v -- final statements for property C09: downstream answers decode exactly (or
+   to a prefix), monotonically in size.  Only statements, each closed by [exact]/[apply] of a lemma
+   from DnsMsgProofs*.v, with Print Assumptions beneath; non-vacuity examples at the end.
+
+   Setting of every theorem: q a query with q_id < 65536, q_type one of the seven tunnel types
+   ([is_ctype]), q_name a well-formed dotted name ([wf_qname]); payload p with bytes_ok p and at
+   least 2 bytes; downenc ANY byte (the letters S, U, V, R select Base64, Base64u, Base128, raw;
+   everything else behaves as T = Base32); td ANY state of the rotating ".xy" suffix (no bound is
+   needed); buflen the client's buffer size with [client_fits]: at least 4096 (the client uses
+   65536 in tunnel mode and 4096 during the handshake), and for MX / SRV additionally
+   length p <= 4096 and the decoded name list fits ([mx_fits]: 254 * (length p / 153 + 1) + 2
+   <= buflen, true for 65536 with every length <= 4096, and for 4096 with every length <= 2295,
+   which covers the 11-bit fragment-size probes of the handshake).
+   ans := write_dns q p downenc td, and for fst ans = Some d, r := client_extract buflen d (length d). *)
+From Coq Require Import List NArith ZArith Arith Bool Lia.
+From Iodine Require Import Base Codec CodecProofs Hostname DnsName DnsWf DnsMsg
+  DnsMsgProofs_Base DnsMsgProofs_Null DnsMsgProofs_Txt DnsMsgProofs_Name DnsMsgProofs_Mx DnsMsgProofs_MxClient DnsMsgProofs DnsMsgProofs_Sent DnsMsgProofs_MxSize DnsMsgExamples_C09.
+Import ListNotations.
+Local Open Scope N_scope.
+
+(* whatever the client extracts is a prefix of the payload -- never different bytes -- and the
+   answer carries the id, (answer) type and first name byte of the question *)
+Theorem C09_prefix : forall q p downenc td buflen d,
+  q_id q < 65536 -> is_ctype (q_type q) -> wf_qname (q_name q) ->
+  bytes_ok p -> (2 <= length p)%nat -> client_fits (q_type q) (length p) buflen ->
+  fst (write_dns q p downenc td) = Some d ->
+  let r := client_extract buflen d (length d) in
+  (0 <= da_rv r)%Z /\
+  da_out r = firstn (Z.to_nat (da_rv r)) p /\ (Z.to_nat (da_rv r) <= length p)%nat /\
+  da_id r = Some (q_id q) /\ da_type r = Some (answer_type (q_type q)) /\
+  da_name0 r = Some (hd 0 (q_name q)).
+Proof. exact c09_prefix. Qed.
+Print Assumptions C09_prefix.
+
+(* a payload within the capacity of the answer format is delivered exactly *)
+Theorem C09_exact : forall q p downenc td buflen d,
+  q_id q < 65536 -> is_ctype (q_type q) -> wf_qname (q_name q) ->
+  bytes_ok p -> (2 <= length p)%nat -> client_fits (q_type q) (length p) buflen ->
+  fst (write_dns q p downenc td) = Some d ->
+  (length p <= capacity (q_type q) downenc)%nat ->
+  let r := client_extract buflen d (length d) in
+  da_rv r = Z.of_nat (length p) /\ da_out r = p.
+Proof. exact c09_exact. Qed.
+Print Assumptions C09_exact.
+
+(* the table is tight for the single-record types: a payload delivered exactly is within it *)
+Theorem C09_exact_tight : forall q p downenc td buflen d,
+  q_id q < 65536 -> is_ctype (q_type q) -> ~ mx_type (q_type q) -> wf_qname (q_name q) ->
+  bytes_ok p -> (2 <= length p)%nat -> client_fits (q_type q) (length p) buflen ->
+  fst (write_dns q p downenc td) = Some d ->
+  (let r := client_extract buflen d (length d) in da_rv r = Z.of_nat (length p) /\ da_out r = p) ->
+  (length p <= capacity (q_type q) downenc)%nat.
+Proof. exact c09_exact_conv. Qed.
+Print Assumptions C09_exact_tight.
+
+(* the capacity table, and what each entry is the solution of *)
+Theorem C09_capacity_table :
+  (forall e, capacity T_NULL e = N.to_nat 4096 /\ capacity T_PRIVATE e = N.to_nat 4096 /\
+             capacity T_MX e = N.to_nat 4096 /\ capacity T_SRV e = N.to_nat 4096) /\
+  (capacity T_TXT 84 = N.to_nat 2559 /\ capacity T_TXT 83 = N.to_nat 3071 /\ capacity T_TXT 85 = N.to_nat 3071 /\
+   capacity T_TXT 86 = N.to_nat 3583 /\ capacity T_TXT 82 = N.to_nat 4095) /\
+  (forall ty, ty = T_CNAME \/ ty = T_A ->
+     capacity ty 84 = 153%nat /\ capacity ty 83 = 183%nat /\ capacity ty 85 = 183%nat /\
+     capacity ty 86 = 214%nat /\ capacity ty 82 = 153%nat) /\
+  (forall e n, (n <= capacity T_TXT e)%nat <-> (1 + txt_textlen e n <= 4096)%nat) /\
+  (forall ty e n, ty = T_CNAME \/ ty = T_A ->
+     ((n <= capacity ty e)%nat <-> (enclen (cbits (host_codec e)) n <= 245)%nat)).
+Proof. exact c09_capacity_table. Qed.
+Print Assumptions C09_capacity_table.
+
+(* exact delivery is downward closed in the payload length: the fragment-size probe is a sound
+   binary search *)
+Theorem C09_monotone : forall q p p' downenc td td' buflen d d',
+  q_id q < 65536 -> is_ctype (q_type q) -> wf_qname (q_name q) ->
+  bytes_ok p -> bytes_ok p' -> (2 <= length p' <= length p)%nat ->
+  client_fits (q_type q) (length p) buflen ->
+  fst (write_dns q p downenc td) = Some d ->
+  fst (write_dns q p' downenc td') = Some d' ->
+  (let r := client_extract buflen d (length d) in da_rv r = Z.of_nat (length p) /\ da_out r = p) ->
+  (let r' := client_extract buflen d' (length d') in da_rv r' = Z.of_nat (length p') /\ da_out r' = p').
+Proof. exact c09_monotone. Qed.
+Print Assumptions C09_monotone.
+
+(* the hypothesis "fst ans = Some d" is always met in the quantified range: the server does send *)
+Theorem C09_sent : forall q p downenc td,
+  is_ctype (q_type q) -> wf_qname (q_name q) -> bytes_ok p -> (1 <= length p <= N.to_nat 4096)%nat ->
+  exists d, fst (write_dns q p downenc td) = Some d.
+Proof. exact c09_sent. Qed.
+Print Assumptions C09_sent.
+
+(* ... and within capacity the client gets exactly the payload *)
+Theorem C09_delivered : forall q p downenc td buflen,
+  q_id q < 65536 -> is_ctype (q_type q) -> wf_qname (q_name q) ->
+  bytes_ok p -> (2 <= length p)%nat -> client_fits (q_type q) (length p) buflen ->
+  (length p <= capacity (q_type q) downenc)%nat ->
+  exists d, fst (write_dns q p downenc td) = Some d /\
+            let r := client_extract buflen d (length d) in da_rv r = Z.of_nat (length p) /\ da_out r = p.
+Proof. exact c09_delivered. Qed.
+Print Assumptions C09_delivered.
+
+(* size of the emitted datagram, all seven types, within capacity: a closed form
+   (ans_size_all: ans_size for the single-record types, mx_size for MX / SRV) ... *)
+Theorem C09_size : forall q p downenc td d,
+  is_ctype (q_type q) -> wf_qname (q_name q) -> bytes_ok p ->
+  (1 <= length p <= capacity (q_type q) downenc)%nat ->
+  fst (write_dns q p downenc td) = Some d ->
+  length d = ans_size_all (q_type q) downenc (length (q_name q)) (length p).
+Proof. exact c09_size_all. Qed.
+Print Assumptions C09_size.
+
+(* ... that is non-decreasing in the payload length and in the question-name length *)
+Theorem C09_size_monotone : forall q q' p p' downenc td td' d d',
+  is_ctype (q_type q) -> q_type q' = q_type q ->
+  wf_qname (q_name q) -> wf_qname (q_name q') -> (length (q_name q) <= length (q_name q'))%nat ->
+  bytes_ok p -> bytes_ok p' -> (1 <= length p <= length p')%nat ->
+  (length p' <= capacity (q_type q) downenc)%nat ->
+  fst (write_dns q p downenc td) = Some d ->
+  fst (write_dns q' p' downenc td') = Some d' ->
+  (length d <= length d')%nat.
+Proof. exact c09_size_monotone. Qed.
+Print Assumptions C09_size_monotone.
+
+(* the two buffer sizes the client really uses *)
+Theorem C09_client_buffers : forall ty n,
+  ((n <= N.to_nat 4096)%nat -> client_fits ty n (N.to_nat 65536)) /\
+  ((n <= N.to_nat 2295)%nat -> client_fits ty n (N.to_nat 4096)).
+Proof. intros ty n. split; [apply client_fits_64k|apply client_fits_4k]. Qed.
+Print Assumptions C09_client_buffers.
+
+(* ---- non-vacuity (computed in DnsMsgExamples_C09.v): the setting is satisfiable, and the model
+   delivers exactly at each capacity and cuts just above it ------------------------------------------- *)
+
+Example C09_example_setting : forall ty, wf_qname (q_name (demo_q ty)) /\ q_id (demo_q ty) < 65536 /\
+  bytes_ok (demo_p 4096) /\ length (demo_p 4096) = N.to_nat 4096 /\ client_fits ty (N.to_nat 4096) (N.to_nat 65536).
+Proof. exact C09_demo_setting. Qed.
+
+Example C09_example_boundaries :
+  (* (return value, extracted = payload, extracted = prefix of the payload) *)
+  demo_run T_NULL 84 4096 65536 = Some (4096%Z, true, true) /\
+  demo_run T_NULL 84 4097 65536 = Some (4096%Z, false, true) /\
+  demo_run T_TXT 84 2559 65536 = Some (2559%Z, true, true) /\
+  demo_run T_TXT 84 2560 65536 = Some (0%Z, false, true) /\
+  demo_run T_TXT 85 3071 65536 = Some (3071%Z, true, true) /\
+  demo_run T_TXT 82 4095 65536 = Some (4095%Z, true, true) /\
+  demo_run T_CNAME 84 153 65536 = Some (153%Z, true, true) /\
+  demo_run T_CNAME 84 154 65536 = Some (153%Z, false, true) /\
+  demo_run T_A 86 214 4096 = Some (214%Z, true, true) /\
+  demo_run T_MX 84 4096 65536 = Some (4096%Z, true, true) /\
+  demo_run T_SRV 86 4096 65536 = Some (4096%Z, true, true) /\
+  demo_run T_MX 84 2295 4096 = Some (2295%Z, true, true).
+Proof.
+  destruct C09_demo_null as [N1 [N2 _]]. destruct C09_demo_txt as [X1 [X2 [_ [_ [X5 [_ [_ [_ [X9 _]]]]]]]]].
+  destruct C09_demo_cname as [C1 [C2 [_ [_ [_ [_ [C7 _]]]]]]]. destruct C09_demo_mx as [M1 [M2 [M3 _]]].
+  exact (conj N1 (conj N2 (conj X1 (conj X2 (conj X5 (conj X9 (conj C1 (conj C2 (conj C7 (conj M1 (conj M2 M3))))))))))).
+Qed.
